@@ -27,6 +27,7 @@ structure File where
   types : List TypeDecl := []
   defaultVar : Option FnRef := none
   aliases : Option (List (String × FnRef)) := none
+  pkgDoc : String := ""              -- the comment above the package clause ("" = none)
   deriving Repr
 
 structure Pkg where
@@ -52,8 +53,9 @@ structure Function where
   isContext : Bool
   args : List Arg
   recvPtr : Bool := false
-  synopsis : String := ""       -- doc.Synopsis of the declaration (recorded; only the generated text shows it)
-  comment : String := ""        -- the whole doc comment, as one line
+  doc : String := ""            -- the declaration's doc comment as written
+  synopsis : String := ""       -- parse.sanitizeSynopsis: the first sentence, without the function's own name
+  comment : String := ""        -- parse.toOneLine: the whole doc comment, as one line
   deriving DecidableEq, Repr
 
 /-- Function.TargetName -/
@@ -102,7 +104,7 @@ def isNamespaceDecl (t : TypeDecl) : Bool := exported t.name && t.rhs == .sel "m
 
 def mkFunction (d : FuncDecl) (s : FnSig) : Function :=
   { name := d.name, receiver := (d.recv.map (·.base)).getD "", isError := s.isError, isContext := s.isContext,
-    args := s.args, recvPtr := (d.recv.map (·.ptr)).getD false }
+    args := s.args, recvPtr := (d.recv.map (·.ptr)).getD false, doc := d.doc }
 
 /-- setNamespaces then setFuncs -/
 def collectFuncs (p : Pkg) : List Function :=
@@ -188,12 +190,44 @@ structure Cfg where
   importTag : String := "mage:import"
   lenConst : Nat := 0
   fields : String → List String
+  /-- `ast.CommentGroup.Text` of a doc comment as written (standard library; recorded) -/
+  docText : String → String := id
+  /-- `go/doc.Synopsis` of a comment text (standard library; recorded) -/
+  docSynopsis : String → String := id
+
+/-- unicode.IsSpace on the characters strings.TrimSpace removes -/
+def isGoSpace (c : Char) : Bool :=
+  c == ' ' || c == '\t' || c == '\n' || c == '\r' || c.toNat == 0x0B || c.toNat == 0x0C || c.toNat == 0x85 || c.toNat == 0xA0
+
+/-- strings.TrimSpace -/
+def trimSpace (s : String) : String :=
+  String.ofList ((s.toList.dropWhile isGoSpace).reverse.dropWhile isGoSpace).reverse
+
+/-- parse.toOneLine -/
+def toOneLine (s : String) : String := trimSpace (s.replace "\n" " ")
+
+/-- parse.sanitizeSynopsis, given `doc.Synopsis` of the text: a leading word equal to the function's name
+(ignoring case) is dropped -/
+def sanitizeSynopsis (name syn : String) : String :=
+  match syn.splitOn " " with
+  | first :: rest => if lower first == lower name then " ".intercalate rest else syn
+  | [] => syn
+
+/-- what setFuncs / setNamespaces record about the doc comment -/
+def decorate (cfg : Cfg) (f : Function) : Function :=
+  let text := cfg.docText f.doc
+  { f with comment := toOneLine text, synopsis := sanitizeSynopsis f.name (cfg.docSynopsis text) }
+
+/-- go/doc's package comment: the texts of the files' package comments in file-name order, joined by a newline -/
+def packageDoc (cfg : Cfg) (p : Pkg) : String :=
+  "\n".intercalate (((sortBy (·.name) p.files).map fun f => cfg.docText f.pkgDoc).filter (· ≠ ""))
 
 /-- parse.PrimaryPackage (then `sort.Sort(info.Funcs)`, `sort.Sort(info.Imports)` of Invoke) -/
 def primary (cfg : Cfg) (w : World) (p : Pkg) : Except BuildErr PkgInfo :=
   match package p with
   | .error e => .error e
-  | .ok own =>
+  | .ok own0 =>
+    let own := own0.map (decorate cfg)
     -- setImports: files in name order
     let specs := (sortBy (·.name) p.files).flatMap (·.imports)
     let tagged := specs.map fun sp => (sp.path, getImportTag cfg.importTag cfg.lenConst cfg.fields sp)
@@ -217,7 +251,7 @@ def primary (cfg : Cfg) (w : World) (p : Pkg) : Except BuildErr PkgInfo :=
           | .ok fs =>
             match load rest with
             | .error e => .error e
-            | .ok more => .ok ((alias, imp.name, path, fs.map fun f => { f with pkgAlias := alias, importPath := path }) :: more)
+            | .ok more => .ok ((alias, imp.name, path, fs.map fun f => { decorate cfg f with pkgAlias := alias, importPath := path }) :: more)
     match load wanted with
     | .error e => .error e
     | .ok loaded =>
@@ -236,6 +270,6 @@ def primary (cfg : Cfg) (w : World) (p : Pkg) : Except BuildErr PkgInfo :=
         | .ok () =>
           .ok { funcs := sortBy (·.targetName) own,
                 imports := (sortBy (·.uniqueName) imports).map fun i => { i with funcs := sortBy (·.targetName) i.funcs },
-                defaultFunc := dflt, aliases := sortBy (·.1) aliases }
+                defaultFunc := dflt, aliases := sortBy (·.1) aliases, description := toOneLine (packageDoc cfg p) }
 
 end MageModel.Parse
